@@ -26,6 +26,7 @@ TIERS = {
 }
 
 TREE_ENTRIES = ("string:exec", "string:eval", "file", "parser:iter")
+MAX_DAMAGED_NEST = 9
 
 
 # ----------------------------------------------------------------------------------------------
@@ -122,6 +123,12 @@ def build_bases(tier: str) -> list[dict]:
     for b in multi:
         for how in ("CRLF", "CR", "mixed"):
             extra.append({"text": worldb.respell(b["text"], how), "spelling": how, "carrier": False})
+    # the same record stored further down a file: after 7 and after 9 lines (valid statements, blank lines, a
+    # comment line, a multi-line bracket and a multi-line string), so that errors are reported on later lines and
+    # next to lines that start no token
+    for b in [x for x in bases if x["carrier"]]:
+        for k in (7, 9):
+            extra.append({"text": pool.padded(b["text"], k), "spelling": f"LF+{k}", "carrier": False})
     # indentation spelled with tabs (a storage convention like the newline spelling)
     n_tab = 0
     for b in bases:
@@ -237,7 +244,7 @@ def run_batch(batch: dict) -> dict:
     res = {
         "deliveries": 0, "contents": 0, "distinct": set(), "outcome_kinds": {}, "fault_kinds": {}, "entries": {},
         "syntax_errors": 0, "violations": [], "slow": 0, "eof_probe": {}, "syntax_sites": {}, "samples": [],
-        "cut_short": False,
+        "cut_short": False, "skipped_deep_nesting": 0,
     }
     env = worldb.SimEnv(scratch)
     env.install()
@@ -253,6 +260,12 @@ def run_batch(batch: dict) -> dict:
                     # violation is already established, so the rest of the batch is skipped (and said so)
                     res["cut_short"] = True
                     break
+                if pool._nesting(content) > MAX_DAMAGED_NEST:
+                    # the diagnostic second pass is exponential in list-display nesting (3x per level; depth 10 with
+                    # an error needs 1.3e7 back-edges and still terminates): beyond this depth a step budget could
+                    # not tell slow from stuck, so such contents are out of scope and counted
+                    res["skipped_deep_nesting"] += 1
+                    continue
                 h = hashlib.sha1(content.encode("utf-8", "surrogatepass")).digest()[:10]
                 if h in res["distinct"]:
                     continue
@@ -371,7 +384,7 @@ def check(prop: str, tier: str, evidence_text: dict) -> int:
     report = Report(prop)
     agg = {"deliveries": 0, "contents": 0, "distinct": 0, "outcome_kinds": {}, "fault_kinds": {}, "entries": {},
            "syntax_errors": 0, "slow": 0, "eof_probe": {}, "syntax_sites": {}, "second_opens": 0,
-           "default_encoding_opens": 0}
+           "default_encoding_opens": 0, "skipped_deep_nesting": 0}
     samples = []
     examples: dict[str, dict] = {}
     tr = time.monotonic()
@@ -380,7 +393,8 @@ def check(prop: str, tier: str, evidence_text: dict) -> int:
         if status != "ok":
             report.harness(f"batch {idx}: {status}: {res}")
             continue
-        for k in ("deliveries", "contents", "distinct", "syntax_errors", "slow", "second_opens", "default_encoding_opens"):
+        for k in ("deliveries", "contents", "distinct", "syntax_errors", "slow", "second_opens", "default_encoding_opens",
+                  "skipped_deep_nesting"):
             agg[k] += res[k]
         for k in ("outcome_kinds", "fault_kinds", "entries", "eof_probe", "syntax_sites"):
             for kk, vv in res[k].items():
@@ -460,6 +474,7 @@ def check(prop: str, tier: str, evidence_text: dict) -> int:
         "batches_cut_short_by_nontermination_breaker": cut_short,
         "largest_step_count_of_a_slow_input_that_terminated": slow_max,
         "step_budget": worldb.HARD_BUDGET,
+        "contents_skipped_for_bracket_nesting_above_9": agg["skipped_deep_nesting"],
         "file_opens_observed": agg["second_opens"],
         "default_encoding_opens": agg["default_encoding_opens"],
         "contents_per_hour": round(agg["contents"] / max(run_s, 1e-9) * 3600),
